@@ -561,6 +561,35 @@ def rule_d(ctx: Context, R: Reporter, cc: ClassInfo, v: FuncInfo):
                     R.check("C18.d", "positional arguments are not name-crossed", False, fi, c,
                             msg=f"{fi.short}: `{unparse(c)[:70]}` passes `{nm}` in the position of parameter `{ps[i]}` of {callee.short}, which also has a parameter `{nm}`: "
                                 f"the two options are exchanged for this component", key=f"crossed-argument:{callee.short}:{nm}->{ps[i]}")
+    # pass-through options: when a function exposes a parameter that a callee of its own also has (same name,
+    # with a default), the call supplies it -- otherwise the caller's option is silently ignored
+    n_pass = 0
+    for fi in ctx.prog.functions.values():
+        cps = {p for p in fi.params if p not in ("self", "cls")}
+        if not cps:
+            continue
+        for (c, tg) in ctx.cg.sites.get(fi.qualname, []):
+            ts = [t for t in tg if isinstance(t, (FuncInfo, ClassInfo))]
+            if len(ts) != 1:
+                continue
+            callee = ts[0] if isinstance(ts[0], FuncInfo) else ctx.prog.mro_lookup(ts[0], "__init__")
+            if callee is None or callee is fi:
+                continue
+            ps = [p for p in callee.params if p not in ("self", "cls")]
+            has_star = any(isinstance(a, ast.Starred) for a in c.args) or any(k.arg is None for k in c.keywords)
+            for i, q in enumerate(ps):
+                if q in cps and callee.param_default(q) is not None:
+                    n_pass += 1
+                    arg = None
+                    if i < len(c.args) and not isinstance(c.args[i], ast.Starred):
+                        arg = c.args[i]
+                    for k in c.keywords:
+                        if k.arg == q:
+                            arg = k.value
+                    R.check("C18.d", f"{fi.short}: option `{q}` is passed on to {callee.short}", arg is not None or has_star, fi, c,
+                            msg=f"{fi.short}: takes `{q}` but calls `{unparse(c)[:50]}` without it: {callee.short} uses its own default "
+                                f"({unparse(callee.param_default(q))}) and the caller's `{q}` has no effect", key=f"pass-through:{fi.short}->{callee.short}:{q}")
+    R.floor("C18.d", "pass-through options", n_pass, 15)
     R.analysed["C18.d:positional_name_arguments"] = n_pos
     R.check("C18.d", f"no name-crossed positional argument among {n_pos} positional name arguments of internal calls", True, None, None, key="crossed-argument-scan", loc="tempest/")
 
